@@ -1,5 +1,6 @@
 import Drx.Bitd
 import Drx.BitdSpec
+import Drx.BitdSteps
 import Drx.Drv.Util
 namespace Drx.Drv.Bitd
 open Drx Drx.Drv Drx.Bitd
@@ -45,6 +46,15 @@ def run : List String → Option String
     let cs ← calls.mapM parseCall
     let (s, rs) := runSeq (reset = "1") DecState.init cs []
     some (J.obj [("results", J.arr rs), ("state", stateJ s)]).render
+  | ["steps", c] => do
+    let c ← parseCall c
+    let s := bitd2bmpSteps c
+    some (J.obj [("total", J.nat s.total), ("ops", J.nat s.ops), ("run", J.nat s.run), ("runBits", J.nat s.runBits),
+                 ("lit", J.nat s.lit), ("litBits", J.nat s.litBits), ("rows", J.nat s.rows), ("cols", J.nat s.cols),
+                 ("bits", J.nat s.bits), ("deRows", J.nat s.deRows), ("dePix", J.nat s.dePix)]).render
+  | ["alloc", c] => do
+    let c ← parseCall c
+    some (toString (allocBytes c))
   | ["readbmp", h] => do
     let b ← bytesOfHex h
     some (match Spec.readBmp b with
